@@ -23,17 +23,18 @@ def _names(cid):
     return '|'.join("enum(%s)" % ','.join(repr(n) for n in EC.NAMES[cid]).join(['', '']) for _ in [0])
 
 
-def registry(cid):
+def registry(cid, tier='thorough'):
     reg = EC.ecc_registry(cid)
     n = SK.curve_bytes(cid)
-    names = "enum(%s)" % ','.join(repr(x) for x in EC.NAMES[cid])
+    # every accepted name maps to the same record (units key.ecc.curves.*); the quick tier runs the constructors on two of them
+    names = "enum(%s)" % ','.join(repr(x) for x in (EC.NAMES[cid] if tier == 'thorough' else EC.NAMES[cid][:2]))
     if cid <= 7:
         P = ECCPOINT + '.'
         pt_xy = 'spec.ecgroup.pt(spec.keys.ival(x), spec.keys.ival(y))'
         # C05/C06: a point object exists only for canonical coordinates of a point of the curve; everything else is ValueError
         reg.add(Contract(P + '__init__', params={'x': COORD, 'y': COORD, 'curve': names},
-                         raises={'ValueError': ('iff', 'not (0 <= spec.keys.ival(x) and 0 <= spec.keys.ival(y) and spec.keys.ival(x) < pow2(%d) and '
-                                                       'spec.keys.ival(y) < pow2(%d) and spec.ecgroup.valid(%d, %s))' % (8 * n, 8 * n, cid, pt_xy))},
+                         raises={'ValueError': ('iff', 'not conj(0 <= spec.keys.ival(x), 0 <= spec.keys.ival(y), spec.keys.ival(x) < pow2(%d), '
+                                                       'spec.keys.ival(y) < pow2(%d), spec.ecgroup.valid(%d, %s))' % (8 * n, 8 * n, cid, pt_xy))},
                          ensures={'point': '%s == %s' % (GP, pt_xy), 'cid': 'self._point._raw_pointer.g_cid == %d' % cid,
                                   'name': 'self.curve == %r' % SK.CURVE_CANONICAL[cid], 'record': 'self._curve.id == %d' % cid},
                          modifies=['self._curve', 'self.curve', 'self._point'], options={'assume_valid': False}))
@@ -51,11 +52,11 @@ def registry(cid):
                          modifies=[]))
         reg.add(Contract(P + 'double', params={}, raises={},
                          ensures={'dbl': '%s == spec.ecgroup.add(%d, old(%s), old(%s))' % (GP, cid, GP, GP), 'self': 'result is self'},
-                         modifies=[GP]))
+                         returns='self', modifies=[GP]))
         reg.add(Contract(P + '__iadd__', params={'point': OP}, raises={},
                          ensures={'sum': '%s == spec.ecgroup.add(%d, old(%s), old(point._point._raw_pointer.g_pt))' % (GP, cid, GP), 'self': 'result is self',
                                   'operand': 'point is not self ==> point._point._raw_pointer.g_pt == old(point._point._raw_pointer.g_pt)'},
-                         modifies=[GP]))
+                         returns='self', modifies=[GP]))
         reg.add(Contract(P + '__add__', params={'point': OP}, raises={}, result=OP,
                          ensures={'sum': 'result._point._raw_pointer.g_pt == spec.ecgroup.add(%d, %s, point._point._raw_pointer.g_pt)' % (cid, GP),
                                   'fresh': 'result is not self and result is not point'},
@@ -63,7 +64,7 @@ def registry(cid):
         reg.add(Contract(P + '__imul__', params={'scalar': SCALAR},
                          raises={'ValueError': ('iff', 'spec.keys.ival(scalar) < 0')},
                          ensures={'mul': '%s == spec.ecgroup.smul(%d, old(%s), spec.keys.ival(scalar))' % (GP, cid, GP), 'self': 'result is self'},
-                         modifies=[GP], unchanged_on_raise=True))
+                         returns='self', modifies=[GP], unchanged_on_raise=True))
         reg.add(Contract(P + '__mul__', params={'scalar': SCALAR}, result=OP,
                          raises={'ValueError': ('iff', 'spec.keys.ival(scalar) < 0')},
                          ensures={'mul': 'result._point._raw_pointer.g_pt == spec.ecgroup.smul(%d, %s, spec.keys.ival(scalar))' % (cid, GP),
@@ -77,18 +78,66 @@ def registry(cid):
                          ensures={'neutral': 'result._point._raw_pointer.g_pt == spec.ecgroup.neutral(%d)' % cid}, modifies=[]))
         reg.add(Contract(P + 'is_point_at_infinity', params={}, raises={},
                          ensures={'neutral': 'bool(result) <==> (%s == spec.ecgroup.neutral(%d))' % (GP, cid)}, modifies=[]))
+        # the x-only class refuses every two-coordinate curve
+        reg.add(Contract(ECCXPOINT + '.__init__', params={'x': COORD + '|none', 'curve': names},
+                         raises={'ValueError': ('iff', 'not spec.keys.is_montgomery(%d)' % cid)},
+                         modifies=['self._curve', 'self.curve', 'self._point'], options={'assume_valid': False}))
+    else:
+        X = ECCXPOINT + '.'
+        p = SK.CURVE_P[cid]
+        # the two-coordinate class refuses every Montgomery curve (a 5-argument call of the 4-argument native constructor otherwise)
+        reg.add(Contract(ECCPOINT + '.__init__', params={'x': COORD, 'y': COORD, 'curve': names},
+                         raises={'ValueError': ('iff', 'spec.keys.is_montgomery(%d)' % cid)},
+                         modifies=['self._curve', 'self.curve', 'self._point'], options={'assume_valid': False}))
+        # RFC 7748 5: any n-octet string is accepted as u (non-canonical values are reduced modulo p); x=None is the point at infinity
+        reg.add(Contract(X + '__init__', params={'x': COORD + '|none', 'curve': names},
+                         raises={'ValueError': ('iff', 'x is not None and not conj(0 <= spec.keys.ival(x), spec.keys.ival(x) < pow2(%d))' % (8 * n))},
+                         ensures={'point': '%s == (-1 if x is None else spec.keys.ival(x) %% %d)' % (GU, p), 'cid': 'self._point._raw_pointer.g_cid == %d' % cid,
+                                  'name': 'self.curve == %r' % SK.CURVE_CANONICAL[cid], 'record': 'self._curve.id == %d' % cid},
+                         modifies=['self._curve', 'self.curve', 'self._point'], options={'assume_valid': False}))
+        reg.add(Contract(X + 'x', params={}, raises={'ValueError': ('iff', '%s == -1' % GU)},
+                         ensures={'x': 'result._value == %s' % GU}, modifies=[], result=OINT))
+        reg.add(Contract(X + 'copy', params={}, raises={}, result=OXP,
+                         ensures={'equal': 'result._point._raw_pointer.g_u == %s' % GU, 'fresh': 'result is not self and result._point is not self._point '
+                                  'and result._point._raw_pointer is not self._point._raw_pointer'},
+                         modifies=[]))
+        reg.add(Contract(X + '__eq__', params={'point': OXP}, raises={},
+                         ensures={'eq': 'result <==> (%s == point._point._raw_pointer.g_u)' % GU}, modifies=[], result='bool'))
+        reg.add(Contract(X + '__imul__', params={'scalar': SCALAR},
+                         raises={'ValueError': ('iff', 'spec.keys.ival(scalar) < 0')},
+                         ensures={'mul': '%s == spec.ecgroup.xsmul(%d, old(%s), spec.keys.ival(scalar))' % (GU, cid, GU), 'self': 'result is self'},
+                         returns='self', modifies=[GU], unchanged_on_raise=True))
+        reg.add(Contract(X + '__mul__', params={'scalar': SCALAR}, result=OXP,
+                         raises={'ValueError': ('iff', 'spec.keys.ival(scalar) < 0')},
+                         ensures={'mul': 'result._point._raw_pointer.g_u == spec.ecgroup.xsmul(%d, %s, spec.keys.ival(scalar))' % (cid, GU),
+                                  'fresh': 'result is not self'},
+                         modifies=[], unchanged_on_raise=True))
+        reg.add(Contract(X + '__rmul__', params={'left_hand': SCALAR}, result=OXP,
+                         raises={'ValueError': ('iff', 'spec.keys.ival(left_hand) < 0')},
+                         ensures={'mul': 'result._point._raw_pointer.g_u == spec.ecgroup.xsmul(%d, %s, spec.keys.ival(left_hand))' % (cid, GU)},
+                         modifies=[], unchanged_on_raise=True))
+        reg.add(Contract(X + 'point_at_infinity', params={}, raises={}, result=OXP,
+                         ensures={'neutral': 'result._point._raw_pointer.g_u == -1'}, modifies=[]))
+        reg.add(Contract(X + 'is_point_at_infinity', params={}, raises={},
+                         ensures={'neutral': 'bool(result) <==> (%s == -1)' % GU}, modifies=[]))
     return reg
 
 
-WS_ED = (1, 2, 3, 4, 5, 6, 7)
 POINT_FUNCS = ['__init__', 'xy', 'copy', '__eq__', '__neg__', 'double', '__iadd__', '__add__', '__imul__', '__mul__', '__rmul__',
                'point_at_infinity', 'is_point_at_infinity']
+XPOINT_FUNCS = ['__init__', 'x', 'copy', '__eq__', '__imul__', '__mul__', '__rmul__', 'point_at_infinity', 'is_point_at_infinity']
+
+
+def targets(cid):
+    if cid <= 7:
+        return [ECCPOINT + '.' + f for f in POINT_FUNCS] + [ECCXPOINT + '.__init__']
+    return [ECCXPOINT + '.' + f for f in XPOINT_FUNCS] + [ECCPOINT + '.__init__']
 
 
 def units(prop, tier):
     from vf.pyunit import pyvc_unit
     out = []
     if prop == 'C06':
-        for cid in WS_ED:
-            out.append(pyvc_unit(prop, 'point.%s' % EC.LABEL[cid], lambda cid=cid: registry(cid), [ECCPOINT + '.' + f for f in POINT_FUNCS]))
+        for cid in EC.ALL_CIDS:
+            out.append(pyvc_unit(prop, 'point.%s' % EC.LABEL[cid], lambda cid=cid: registry(cid, tier), targets(cid), weight=3))
     return out
